@@ -1124,6 +1124,11 @@ class CryptographyEngine(api.CryptographicEngine):
             b'\x90\x01P\x98<\xd2O\xb0\xd6\x96?}(\xe1\x7fr'
         """
         if derivation_method == enums.DerivationMethod.ENCRYPT:
+            if derivation_data is None:
+                raise exceptions.InvalidField(
+                    "For encryption-based key derivation, derivation data "
+                    "must be specified."
+                )
             result = self.encrypt(
                 encryption_algorithm=encryption_algorithm,
                 encryption_key=key_material,
